@@ -29,12 +29,18 @@ func (ctx *EvalCtx) extMethod(recv CV, name string, argExprs []ast.Expr) (CV, bo
 				continue
 			}
 			full := fn.String()
-			if !isPureExternal(full) {
-				return CV{}, false
-			}
 			args := []*Term{recv.t}
 			for _, a := range argExprs {
 				args = append(args, ctx.eval(a).t)
+			}
+			// the same library model the call rule uses (time.Time, math.Int, ... methods)
+			if m, ok := libModels[full]; ok {
+				if cv, ok := ctx.libCall(m, fn, args); ok {
+					return cv, true
+				}
+			}
+			if !isPureExternal(full) {
+				return CV{}, false
 			}
 			for _, t := range sigParamTypes(fn.Signature) {
 				if !ex.valueLike(t) {
@@ -82,3 +88,46 @@ func (fr *Frame) paramCell(name string) *ssa.Alloc {
 }
 
 func fmtErrorf(format string, a ...interface{}) error { return fmt.Errorf(format, a...) }
+
+func (fr *Frame) debugCallSites() {
+	if !debugOn {
+		return
+	}
+	for _, b := range fr.fn.Blocks {
+		for _, in := range b.Instrs {
+			if n, ok := fr.callOrd[in]; ok {
+				fmt.Printf("DEBUG site %s: %s at %s\n", fr.fn.Name(), n, fr.ex.W.prog.Fset.Position(in.Pos()))
+			}
+		}
+	}
+}
+
+// libCall applies a library model inside a contract expression (models that do not need the call site).
+func (ctx *EvalCtx) libCall(m LibFn, fn *ssa.Function, args []*Term) (cv CV, ok bool) {
+	defer func() {
+		if r := recover(); r != nil {
+			ok = false
+		}
+	}()
+	fr := ctx.frame
+	if fr == nil {
+		fr = &Frame{ex: ctx.ex, fn: fn}
+	}
+	st := ctx.state().clone()
+	res, done := m(fr, st, nil, args)
+	if !done || len(res) == 0 {
+		return CV{}, false
+	}
+	rs := fn.Signature.Results()
+	var cvs []CV
+	for i, r := range res {
+		if i < rs.Len() {
+			cvs = append(cvs, CV{r, rs.At(i).Type()})
+		}
+	}
+	if ctx.tuples == nil {
+		ctx.tuples = map[*Term][]CV{}
+	}
+	ctx.tuples[cvs[0].t] = cvs
+	return cvs[0], true
+}
